@@ -4,12 +4,12 @@
    or the exception class.  VAgree: equal to the intended model (shortcut-free, empty diagram
    accepted) whose correctness is sweep_correct; VLegacyDup / VLegacyEmpty: equal to the faithful
    model of the pinned code only (refuted variants); VDisagree otherwise. *)
-From Coq Require Import QArith List Bool Arith.
+From Coq Require Import QArith Qabs List Bool Arith.
 From Persim Require Import Lib.Kth Lib.PL Model.SweepM.
 Import ListNotations.
 Open Scope Q_scope.
 
-Inductive verdict := VAgree | VLegacyDup | VLegacyEmpty | VDisagree.
+Inductive verdict := VAgree | VLegacyDup | VLegacyEmpty | VDisagree | VTraceMismatch.
 
 Definition pt_eqb (a b : pt) : bool := Qeq_bool (fst a) (fst b) && Qeq_bool (snd a) (snd b).
 Fixpoint list_eqb {A} (e : A -> A -> bool) (x y : list A) : bool :=
@@ -25,11 +25,74 @@ Definition outcome_eqb (a b : outcome) : bool :=
   | _, _ => false          (* ErrNonFinite / ErrFuel never equal an implementation outcome *)
   end.
 
-Definition check_case (dgms : list (list ebar)) (h : nat) (impl : outcome) : verdict :=
+Definition model_verdict (dgms : list (list ebar)) (h : nat) (impl : outcome) : verdict :=
   if outcome_eqb (exact_landscape false true dgms h) impl then VAgree
   else if outcome_eqb (exact_landscape true true dgms h) impl then VLegacyDup
   else if outcome_eqb (exact_landscape true false dgms h) impl then VLegacyEmpty
   else VDisagree.
 
-(* did the repeated-bar shortcut fire anywhere in the Legacy run?  (used by sweep_shortcut_agrees
-   and, when the source hook is absent, by the harness) *)
+(* trace = what the guarded hook recorded (None: hook absent).  An implementation that still has the
+   shortcut must fire exactly where the Legacy model does; one that never fires must agree with the
+   intended model. *)
+Definition check_case (dgms : list (list ebar)) (h : nat) (impl : outcome) (trace : option (list nat)) : verdict :=
+  let v := model_verdict dgms h impl in
+  match trace with
+  | None => v
+  | Some tr =>
+      match v with
+      | VDisagree => VDisagree
+      | _ => if list_eqb Nat.eqb tr (landscape_trace dgms h) then v
+             else match tr, v with [], VAgree => VAgree | _, _ => VTraceMismatch end
+      end
+  end.
+
+(* ---- the DEFINITION evaluated inside Coq on the implementation's output (executable twin of
+   landscape_ok): pl_eval of every depth against land = k-th largest tent, at every breakpoint of the
+   output, the midpoints between consecutive breakpoints, the endpoints / midpoints / pairwise crossing
+   abscissae of the bars, and points outside, for k = 1 .. max(#bars, #depths) + 1. ---- *)
+Fixpoint mids_from (x : Q) (r : list Q) : list Q :=
+  match r with [] => [] | y :: r' => half (x + y) :: mids_from y r' end.
+Definition mids (l : list Q) : list Q := match l with [] => [] | x :: r => mids_from x r end.
+Definition sample_points (bars : list bar) (L : list (list pt)) : list Q :=
+  flat_map (fun l => map fst l) L ++ flat_map (fun l => mids (map fst l)) L ++
+  flat_map (fun a => [fst a; snd a; fst a - 1; snd a + 1]) bars ++
+  flat_map (fun a => map (fun c => half (fst a + snd c)) bars) bars.
+Definition def_ok (bars : list bar) (L : list (list pt)) : bool :=
+  forallb (fun t => forallb (fun k => Qeq_bool (pl_eval (nth (k - 1) L []) t) (land bars k t))
+                            (seq 1 (Nat.max (length bars) (length L) + 1)))
+          (sample_points bars L).
+Definition ordered (L : list (list pt)) : bool :=
+  forallb (fun l => forallb (fun p => Qle_bool (fst (fst p)) (fst (snd p))) (combine l (tl l))) L.
+(* first and last ordinate 0: with agreement at all breakpoints of both piecewise-linear functions this
+   makes the sample set complete (no jump at the ends of a depth) *)
+Definition closed (L : list (list pt)) : bool :=
+  forallb (fun l => match l with [] => true | p :: _ => Qeq_bool (snd p) 0 && Qeq_bool (snd (last l p)) 0 end) L.
+Definition spec_twin (bars : list bar) (L : list (list pt)) : bool := ordered L && closed L && def_ok bars L.
+
+(* ---- tolerance family (off-grid doubles): every decision of the sweep compares input coordinates only,
+   so the implementation must produce the same shape; the computed coordinates (b+d)/2, (d-b)/2 may be
+   rounded and are compared within tol. ---- *)
+Definition pt_close (tol : Q) (a b : pt) : bool :=
+  Qle_bool (Qabs (fst a - fst b)) tol && Qle_bool (Qabs (snd a - snd b)) tol.
+Definition outcome_close (tol : Q) (a b : outcome) : bool :=
+  match a, b with
+  | Ok x, Ok y => list_eqb (list_eqb (pt_close tol)) x y
+  | ErrIndex, ErrIndex => true
+  | _, _ => false
+  end.
+Definition model_verdict_tol (tol : Q) (dgms : list (list ebar)) (h : nat) (impl : outcome) : verdict :=
+  if outcome_close tol (exact_landscape false true dgms h) impl then VAgree
+  else if outcome_close tol (exact_landscape true true dgms h) impl then VLegacyDup
+  else if outcome_close tol (exact_landscape true false dgms h) impl then VLegacyEmpty
+  else VDisagree.
+Definition check_case_tol (tol : Q) (dgms : list (list ebar)) (h : nat) (impl : outcome) (trace : option (list nat)) : verdict :=
+  let v := model_verdict_tol tol dgms h impl in
+  match trace with
+  | None => v
+  | Some tr =>
+      match v with
+      | VDisagree => VDisagree
+      | _ => if list_eqb Nat.eqb tr (landscape_trace dgms h) then v
+             else match tr, v with [], VAgree => VAgree | _, _ => VTraceMismatch end
+      end
+  end.
